@@ -47,6 +47,32 @@ CHECKS = {
              'with azimuth changes weighed by the oracle reduced length (~0.7 M pairs, 4 M calls quick).',
         note='Reduced length by differencing the oracle; one open finding (sub-nanometre azimuth noise on lines < 10 m).',
         design='§5/C05'),
+    'C06': dict(
+        text='conform7 on all 120 shipped sets, negations and a 143-set parameter lattice (2^7 corners of |t|=1000 m, '
+             '|s|=100 ppm, |r|=59.999", axis points, zero) x a Cartesian lattice (all octants, |x| to 5e7 m) against the '
+             'formula evaluated in 40-digit arithmetic (1 um); depth 2 with the negated set (second-order bound, stated '
+             'limits for shipped sets); covariance branch over a PSD lattice (rank 0-3, condition 1e8, 7 rotations) x sets '
+             'with/without uncertainties: None / symmetric PSD equal to J Q J^T.',
+        note='Jacobian of the oracle validated against 60-digit central differences at run time; numeric limits for shipped '
+             'sets asserted within 7e6 m of the geocentre, the second-order bound everywhere.',
+        design='§5/C06'),
+    'C07': dict(
+        text='conform14 on every shipped set with a date epoch (106), negations and a rate lattice x epoch lattice '
+             '(1980-2060: range ends, every catalogue epoch +-1 day, every 29 Feb, yearly/monthly 1st, seed-shifted day) x 12 '
+             'points against the 7-parameter formula with parameters advanced in exact rationals (2 um); reference-epoch '
+             'reduction to conform7; depth 2 negation; ATRF wrappers mutual inverses + bit-exact identity at 2020.0; '
+             'covariance with uncertainties advanced to the epoch, repeated calls identical.',
+        note='Julian year 365.25 d; implementation rounding of advanced parameters (8 decimals) is inside the tolerance.',
+        design='§5/C07'),
+    'C08': dict(
+        text='Explicit-state BFS of the conversion graph (9 notations, 72 edges: every x2y function, object method, '
+             'constructor, math.degrees/radians, vectorised variants) from every lattice angle injected in every notation: '
+             'complete whole-arc-second lattice (18 structural degrees quick / all 360 thorough, both signs) at depth 1, '
+             'structural sub-lattice, fractional seconds (1e-9, 1e-8, 0.5, 59.999999999) and degrees 360-719 at depth 3; '
+             'every reached state must denote the start angle within 1e-8" (exact rationals / 40-digit pi), every HP float '
+             'must be valid, no edge may raise; invalid HP lattice must be rejected. ~25 M transitions quick.',
+        note='HP floats are read through their 13-decimal string (12 from 512 deg, where float64 has no 13th decimal).',
+        design='§5/C08'),
     'C10': dict(
         text='Every C01 state and its grid2geo image: point scale factor and grid convergence against '
              'k=|dz/dzeta|/(nu cos phi), gamma=arg(dz/dzeta) of the exact projection for the requested ellipsoid and '
